@@ -202,7 +202,7 @@ fn run_all(ctx: &mut Ctx) {
             find_all_free_function_ids(&probe_db, ids).map(|v| v.len()).unwrap_or(0)
         };
         drop(probe_db);
-        let nf_tasks = tier.pick(6, 14).min(nfuncs);
+        let nf_tasks = tier.pick(6, 10).min(nfuncs);
         let mut tasks: Vec<Task> = (0..nf_tasks).map(|i| Task::Sierra(i * nfuncs / nf_tasks.max(1))).collect();
         tasks.push(Task::ModuleFirst(0));
         tasks.push(Task::ModuleFirst(1));
@@ -364,12 +364,12 @@ fn run_all(ctx: &mut Ctx) {
 pub static C12: CheckDef = CheckDef {
     id: "C12",
     level: "model_checking",
-    rule: "(0) every project compiled in 2 (thorough 6) fresh processes - own std RandomState keys, rayon pools of 1/2/3/4/16 threads - must give byte-identical artefacts (the fork-snapshot children below share one process image and would not see a hash-iteration-order leak). (1) Model: a schedule is abstracted to the order in which top-level queries first execute (tracked queries run on exactly one thread; the schedule-dependent state is which queries ran before and the first-come order of interned ids) and the thread each runs on. Task alphabet per project: the last and the last-but-one submodule of the crate opened first through its parent only (items, diagnostics, Sierra of its first function - the IDE pattern, which interns a module's items before its siblings'); function_with_body_sierra of k functions spread over the crate (quick 6, thorough 14), all diagnostics of the project, the whole Sierra program, and diagnostics+Sierra of two unrelated crates added to the same database. Enumerated: EVERY sequence of <=2 (thorough <=3) distinct tasks x {main thread, a second OS thread on a database snapshot} per task, by fork-snapshot DFS on the real RootDatabase (each node is a copy-on-write process image), for projects examples/ and a 24-module crate of hand-written programs (thorough: + tests/bug_samples). Oracle: after every history the diagnostics text, Sierra with debug names, canonical Sierra and CASM text are byte-identical (Sierra printed with raw salsa intern ids is first-come by design and is not part of the property) (hash + length) to the empty-history baseline. states/transitions = histories executed; traces_validated_against_impl = all of them. Auxiliary, sampled, not deciding: compile_prepared_db_program_artifact under rayon pools of 1/2/4/16 threads must agree across runs and across pool sizes (maxs.rayon_hash_*).",
+    rule: "(0) every project compiled in 2 (thorough 6) fresh processes - own std RandomState keys, rayon pools of 1/2/3/4/16 threads - must give byte-identical artefacts (the fork-snapshot children below share one process image and would not see a hash-iteration-order leak). (1) Model: a schedule is abstracted to the order in which top-level queries first execute (tracked queries run on exactly one thread; the schedule-dependent state is which queries ran before and the first-come order of interned ids) and the thread each runs on. Task alphabet per project: the last and the last-but-one submodule of the crate opened first through its parent only (items, diagnostics, Sierra of its first function - the IDE pattern, which interns a module's items before its siblings'); function_with_body_sierra of k functions spread over the crate (quick 6, thorough 10), all diagnostics of the project, the whole Sierra program, and diagnostics+Sierra of two unrelated crates added to the same database. Enumerated: EVERY sequence of <=2 (thorough <=3) distinct tasks x {main thread, a second OS thread on a database snapshot} per task, by fork-snapshot DFS on the real RootDatabase (each node is a copy-on-write process image), for projects examples/ and a 24-module crate of hand-written programs (thorough: + tests/bug_samples). Oracle: after every history the diagnostics text, Sierra with debug names, canonical Sierra and CASM text are byte-identical (Sierra printed with raw salsa intern ids is first-come by design and is not part of the property) (hash + length) to the empty-history baseline. states/transitions = histories executed; traces_validated_against_impl = all of them. Auxiliary, sampled, not deciding: compile_prepared_db_program_artifact under rayon pools of 1/2/4/16 threads must agree across runs and across pool sizes (maxs.rayon_hash_*).",
     assumptions: &["no preemption inside a query is explored (salsa-under-shuttle is infeasible here: see DESIGN §1)", "a bug needing an interleaving finer than whole top-level queries is outside the bound"],
     run: run_all,
     stack_mb: 64,
     item_timeout_s: 1500,
-    wall_cap_s: (55, 1700),
+    wall_cap_s: (55, 3600),
     shards: 0,
 };
 
